@@ -111,16 +111,21 @@ SP = ['Zr', 'Al', 'Cu', 'Fe', 'O', 'Ni', 'Mg', 'U']
 def gen_model_text(rng):
     kind = rng.choice(['pair', 'pair', 'eam', 'fs', 'excel', 'excel_eam'])
     els = rng.sample(SP, rng.choice([2, 3, 4]))
-    forms = '[Potential-Form]\ncore(r, a, b) = a*exp(-r/b)\nmix(r, a, b, c) = core(r, a, b) - core(r, c, b+b) + a*0.001\nemb(rho, a) = -a*sqrt(rho)\n'
+    # the same labels mean different things in different models: `core` (a helper the unchanged text of `mix` calls), `emb`
+    # and the table form `tb` differ from model to model by a variant number
+    v = rng.choice([0, 0, 1, 2, 3])
+    forms = '[Potential-Form]\ncore(r, a, b) = a*exp(-r/b)%s\nmix(r, a, b, c) = core(r, a, b) - core(r, c, b+b) + a*0.001\nemb(rho, a) = -a*sqrt(rho)%s\n' % (
+        (' + %r' % (0.125 * v) if v else ''), (' - %r*rho' % (0.25 * v) if v else ''))
+    forms += '[Table-Form:tb]\nx : 0.0 1.0 2.0 3.0 4.0 5.0\ny : %s\n' % ' '.join(repr(round(2.0 / (1 + i) + 0.5 * v, 4)) for i in range(6))
     pdefs = ['as.buck 1000.0 0.3 32.0', 'as.lj 0.25 2.5', 'core 500.0 0.4', 'mix 400.0 0.3 20.0', 'mix 100.0 0.5 7.0', 'core 20.0 0.75',
-             '>0 as.constant 2.0 >1.0 as.constant 3.0 >=1.5 core 10.0 0.5', '>=0.5 as.buck 800.0 0.3 0.0 >1.0 as.constant -1.0', 'sum(core 10.0 0.5, as.coul 1.0 -1.0)']
+             'tb', 'sum(tb, core 5.0 0.5)', '>0 as.constant 2.0 >1.0 as.constant 3.0 >=1.5 core 10.0 0.5', '>=0.5 as.buck 800.0 0.3 0.0 >1.0 as.constant -1.0', 'sum(core 10.0 0.5, as.coul 1.0 -1.0)']
     allp = [(a, b) for i, a in enumerate(els) for b in els[i:]]
     pairs = rng.sample(allp, min(len(allp), rng.randint(2, 4)))
     ptxt = '[Pair]\n' + ''.join('%s-%s : %s\n' % (a, b, rng.choice(pdefs)) for (a, b) in pairs)
     if kind in ('pair', 'excel'):
         target = rng.choice(['LAMMPS', 'GULP', 'DL_POLY']) if kind == 'pair' else 'excel'
         # some models leave the grid to the documented defaults (1001 rows to 10.0): they must not inherit another model's grid
-        grid = 'nr : 8\ncutoff : 3.5\n' if (kind == 'excel' or rng.random() < 0.85) else rng.choice(['', 'cutoff : 3.5\n', 'nr : 8\n'])
+        grid = 'nr : 8\ncutoff : 3.5\n' if (kind == 'excel' or target == 'DL_POLY' or rng.random() < 0.85) else rng.choice(['', 'cutoff : 3.5\n', 'nr : 8\n'])
         t = '[Tabulation]\ntarget : %s\n' % target + grid + forms + ptxt
         return {'text': t, 'npots': len(pairs)}
     fs = kind == 'fs'
@@ -128,7 +133,7 @@ def gen_model_text(rng):
     t = '[Tabulation]\ntarget : %s\nnr : 6\ncutoff : 2.5\nnrho : 4\ncutoff_rho : 6.0\n' % target + forms + ptxt
     # under-specified: embedding functions for SOME species only; the others are zero-filled
     emb = rng.sample(els, rng.randint(1, max(1, len(els) - 1)))
-    t += '[EAM-Embed]\n' + ''.join('%s : emb %r\n' % (e, 1.0 + i) for i, e in enumerate(emb))
+    t += '[EAM-Embed]\n' + ''.join('%s : %s\n' % (e, 'emb %r' % (1.0 + i) if i % 2 == 0 else 'tb') for i, e in enumerate(emb))
     if fs: t += '[EAM-Density]\n' + ''.join('%s->%s : core %r 0.5\n' % (a, b, 1.0 + i) for i, (a, b) in enumerate([(a, b) for a in els for b in els if rng.random() < 0.8] or [(els[0], els[0])]))
     else: t += '[EAM-Density]\n' + ''.join('%s : core %r 0.5\n' % (e, 2.0 + i) for i, e in enumerate(els))
     # per-model reference data: overrides of built-in elements must stay with the model that declares them
